@@ -157,61 +157,47 @@ Proof.
 Qed.
 Print Assumptions c12_bgzf_frames_sched_indep.
 
-(* FASTA sequence reader: with no Interrupted pending and sequence text in which '>' occurs only
-   at the start of a line and CR only immediately before LF (or as the last byte), the sequence
-   returned is the closed form [seq_spec d] whatever windows the BufReader produces. *)
+(* FASTA sequence reader (repaired code: line-start flag + held-back CR + Interrupted retried):
+   for EVERY data, every window layout and every placement of Interrupted the sequence returned
+   is the closed form [spec] of the data — line terminator = LF optionally preceded by one CR, CRs
+   at a line start skipped, a CR elsewhere is data, '>' ends the sequence only at a line start.
+   No side condition on the text (the former known classes fasta-bare-cr / fasta-midline-gt). *)
 Theorem c12_fasta_scanner_chunk_indep :
   forall (S : Type) (rd : reader S) (Rep : S -> list N -> nat -> Prop), simulates rd Rep ->
   forall cap, 1 <= cap ->
-  forall fuel st d b acc, rep_buf Rep st d 0 -> wf_seq b d -> length d < fuel ->
-    exists st', read_sequence rd cap fuel st acc = (SOk, acc ++ seq_spec d, st').
+  forall fuel ib p st d m acc,
+    rep_buf Rep st d m -> (p = true -> ib = false) -> mu m d p < fuel ->
+    exists s', read_sequence rd cap fuel (ib, p, st) acc = (SOk, acc ++ spec ib p d, s').
 Proof. exact (@read_sequence_spec). Qed.
 Print Assumptions c12_fasta_scanner_chunk_indep.
 
-(* The full statement (no side condition on the text) is false for the faithful model —
-   candidate finding F4 and its sibling: *)
-Definition c12_fasta_scanner_full_statement : Prop :=
-  forall data cap1 cap2, 1 <= cap1 -> 1 <= cap2 ->
-    snd (fst (run_read_sequence cap1 (mkSource data []))) = snd (fst (run_read_sequence cap2 (mkSource data []))).
-
-(* "AC\rGT\n": capacity 64 keeps the CR ("AC\rGT"), capacity 3 drops it ("ACGT") *)
-Theorem c12_fasta_bare_cr_refuted :
-  exists data cap1 cap2, 1 <= cap1 /\ 1 <= cap2 /\
-    snd (fst (run_read_sequence cap1 (mkSource data []))) <> snd (fst (run_read_sequence cap2 (mkSource data []))).
+(* on the scripted source behind a BufReader: any script, any capacity, same sequence *)
+Theorem c12_fasta_read_sequence_any_delivery :
+  forall data sc cap, 1 <= cap ->
+    exists s', run_read_sequence cap (mkSource data sc) = (SOk, seq_spec data, s').
 Proof.
-  exists [65; 67; 13; 71; 84; 10]%N, 64, 3. split; [lia|]. split; [lia|].
-  vm_compute. discriminate.
+  intros data sc cap Hcap. unfold run_read_sequence.
+  destruct (read_sequence_spec src_read rep_src src_simulates cap Hcap
+              (s_fuel ([], mkSource data sc)) true false ([], mkSource data sc) data
+              (n_interrupted sc) []) as [s' E].
+  - exists data. cbn [fst snd app]. split; [reflexivity|]. split; reflexivity.
+  - intros H; discriminate.
+  - unfold mu, s_fuel, b_fuel, src_fuel. cbn [fst snd s_data s_script length]. lia.
+  - exists s'. exact E.
 Qed.
-Print Assumptions c12_fasta_bare_cr_refuted.
+Print Assumptions c12_fasta_read_sequence_any_delivery.
 
-(* "AC>GT\n": capacity 64 returns "AC>GT", capacity 2 stops before the '>' ("AC") *)
-Theorem c12_fasta_midline_gt_refuted :
-  exists data cap1 cap2, 1 <= cap1 /\ 1 <= cap2 /\
-    snd (fst (run_read_sequence cap1 (mkSource data []))) <> snd (fst (run_read_sequence cap2 (mkSource data []))).
-Proof.
-  exists [65; 67; 62; 71; 84; 10]%N, 64, 2. split; [lia|]. split; [lia|].
-  vm_compute. discriminate.
-Qed.
-Print Assumptions c12_fasta_midline_gt_refuted.
-
-(* FASTA indexer, consume_sequence_line: on the same well-formed text the (line width, base count)
-   pair is the closed form: width = the line up to and including its LF (stopping before a '>'
-   line), bases = its bytes other than CR and LF — whatever the windows *)
+(* FASTA indexer, consume_sequence_line at the beginning of a line: (line width, base count) =
+   (length of the raw line including its LF, its bytes before the LF minus one final CR); nothing
+   for a line that starts with '>'.  Every delivery, no side condition. *)
 Theorem c12_fasta_indexer_line_chunk_indep :
   forall (S : Type) (rd : reader S) (Rep : S -> list N -> nat -> Prop), simulates rd Rep ->
   forall cap, 1 <= cap ->
-  forall fuel st d b w0 b0, rep_buf Rep st d 0 -> wf_seq b d -> length d + 1 < fuel ->
-    exists st', consume_sequence_line rd cap fuel st false w0 b0
-                = (SOk, w0 + length (seq_line d), b0 + length (filter not_nl (seq_line d)), st').
+  forall fuel st d m, rep_buf Rep st d m -> m + length d + 1 < fuel ->
+    exists st', consume_sequence_line rd cap fuel st false false 0 0
+                = (SOk, length (idx_line d), length (strip_cr (until_lf (idx_line d))), st').
 Proof. exact (@consume_sequence_line_spec). Qed.
 Print Assumptions c12_fasta_indexer_line_chunk_indep.
-
-(* without the side condition: ">x\nAC\rGT\n" counts 5 bases with one window, 4 with windows of 3 *)
-Theorem c12_fasta_indexer_bare_cr_refuted :
-  let data := [62; 120; 10; 65; 67; 13; 71; 84; 10]%N in
-  snd (fst (fidx_first_line 64 (mkSource data []))) <> snd (fst (fidx_first_line 3 (mkSource data []))).
-Proof. vm_compute. discriminate. Qed.
-Print Assumptions c12_fasta_indexer_bare_cr_refuted.
 
 (* ---- non-vacuity *)
 (* a script with 1-byte deliveries and an Interrupted in the middle: read_exact 4 of "abcdef" *)
@@ -228,8 +214,17 @@ Example c12_example_or_eof :
   snd (fst (read_exact_or_eof src_read 9 (mkSource [1; 2; 3; 4]%N [Deliver 1; Deliver 1; Deliver 1]) 4)) = EFull.
 Proof. vm_compute. auto. Qed.
 
-(* the hypotheses of the FASTA theorem are satisfiable: CRLF text, capacity 1 *)
+(* the former refutation witnesses now agree for the capacities that used to differ *)
+Example c12_example_fasta_former_witnesses :
+  snd (fst (run_read_sequence 64 (mkSource [65; 67; 13; 71; 84; 10]%N []))) = [65; 67; 13; 71; 84]%N /\
+  snd (fst (run_read_sequence 3 (mkSource [65; 67; 13; 71; 84; 10]%N []))) = [65; 67; 13; 71; 84]%N /\
+  snd (fst (run_read_sequence 64 (mkSource [65; 67; 62; 71; 84; 10]%N []))) = [65; 67; 62; 71; 84]%N /\
+  snd (fst (run_read_sequence 2 (mkSource [65; 67; 62; 71; 84; 10]%N [Interrupted; Deliver 1]))) = [65; 67; 62; 71; 84]%N /\
+  fst (fidx_first_line 64 (mkSource [62; 120; 10; 65; 67; 13; 71; 84; 10]%N [])) = (SOk, 6, 5) /\
+  fst (fidx_first_line 3 (mkSource [62; 120; 10; 65; 67; 13; 71; 84; 10]%N [])) = (SOk, 6, 5).
+Proof. vm_compute. repeat split. Qed.
+
+(* CRLF text, capacity 1, CR and LF always in different windows *)
 Example c12_example_fasta :
-  wf_seq true [65; 67; 13; 10; 71; 84; 13; 10; 62; 120]%N /\
   snd (fst (run_read_sequence 1 (mkSource [65; 67; 13; 10; 71; 84; 13; 10; 62; 120]%N []))) = [65; 67; 71; 84]%N.
-Proof. vm_compute. auto. Qed.
+Proof. vm_compute. reflexivity. Qed.
